@@ -494,6 +494,16 @@ def judge_state_diff(ref, obs, full_log, upto):
     if len(kept) < len(real):
       labels.append('reference-state-was-stale(charged to C05)')
     real = kept
+  # Python int vs float of the same number (1 vs 1.0): not observable by Node (one JSON number), and the harness
+  # hands undo/redo values back as Python objects where Node would hand back JS numbers. A formula that formats such
+  # a value as text shows the difference ('|1' vs '|1.0'): not judged.
+  def _numrep(v):
+    return _re.sub(r'(?<![\d.])(-?\d+)\.0(?!\d)', r'\1', v) if isinstance(v, str) else v
+  n1 = len(real)
+  real = [x for x in real if not (col_kind(ref, x[0], x[1]) == 'formula' and isinstance(x[3], str) and
+                                  isinstance(x[4], str) and _numrep(x[3]) == _numrep(x[4]))]
+  if len(real) < n1:
+    labels.append('int-vs-float-text(not Node-observable)')
   if not real:
     return None, labels
   # representative cell: prefer metadata / data cells over formula cells
